@@ -87,17 +87,19 @@ def table : Op
     some [.list ((doseRows nDoses.toNat n.toNat).map (fun p => .list [.int p.1, .int p.2]))]
   | _ => none
 
-/-- `C15.nids legacy nStored nDrawn` → number of patients `compute_individual_parameters` of a
-    heterogeneous model returns, and what the loop of the bare model does with them -/
+/-- `C15.nids legacy nStored nDrawn` → number of patients `PopulationPredictiveModel.sample` simulates
+    for a heterogeneous dimension, what the loop of the bare model does with them, the number for a pooled
+    dimension, whether a composed model accepts the individuals -/
 def nids : Op
   | [.bool legacy, .int nStored, .int nDrawn] =>
     let stored : List (List Float) := (List.range nStored.toNat).map (fun _ => [0.0])
     let eta : List (List Float) := (List.range nDrawn.toNat).map (fun _ => [0.0])
-    let pats := (heteroIndividuals legacy stored eta).length
+    let pats := (popPredHetero legacy stored eta).length
     let pooled := (pooledIndividuals [0.0] eta).length
+    let acc := composedAccepts legacy stored eta
     match fillColumns nDrawn.toNat pats with
-    | .error e => some [.int pats, errVal e, .int pooled]
-    | .ok cols => some [.int pats, .list (cols.map .bool), .int pooled]
+    | .error e => some [.int pats, errVal e, .int pooled, .bool acc]
+    | .ok cols => some [.int pats, .list (cols.map .bool), .int pooled, .bool acc]
   | _ => none
 
 def ops : List (String × Op) :=
